@@ -93,7 +93,8 @@ MUT_RULE = ", plus byte mutations of the encoded histories (truncation, length-w
 
 PROPS = {
     "C01": {"dev_families": lambda rng, tier: [sc for sc in gen.fam_extremal(rng, tier) if sc[0].startswith("extremal-chain") or sc[0].startswith("extremal-ipfix-records-2000")],
-            "oracle": "C01", "view": ["outcome"], "families": lambda rng, tier: gen.fam_extremal(rng, tier) + fam_general(rng, tier) + gen.fam_redefine(rng, n(tier, 40, 300)),
+            "oracle": "C01", "view": ["outcome"], "families": lambda rng, tier: gen.fam_extremal(rng, tier) + fam_general(rng, tier) + gen.fam_redefine(rng, n(tier, 40, 300)) +
+            gen.fam_widths(rng, 9, sample=n(tier, 150, None)) + gen.fam_widths(rng, 10, sample=n(tier, 150, None)),
             "mutate_per": {"quick": 1, "thorough": 3}, "rule": STREAM_RULE + MUT_RULE + "; extremal families: IPFIX data set packed with 1-byte records (quick: 2000 and 20000, thorough: up to 65000), 4095 chained 16-byte IPFIX messages, 2730 chained empty V5 packets, V9 zero-size templates, headers announcing 65535 records/fields, templates with up to 4000 zero-length fields — always after a history that cached the attacker-chosen template"},
     "C02": {"oracle": "C02", "view": ["outcome", "pkts"], "families": fam_general, "mutate_per": {"quick": 2, "thorough": 4},
             "rule": STREAM_RULE + ", random garbage with plausible version words" + MUT_RULE},
@@ -106,7 +107,8 @@ PROPS = {
             "rule": "interleaved histories on several parser instances with colliding template ids, redefinitions, V5/V7 and disallowed-version frames, chained vs split delivery"},
     "C07": {"oracle": "C07", "view": ["outcome", "pkts", "state"], "families": fam_c07,
             "rule": "data sets for a template id unknown to this parser/protocol (defined for the other protocol on this parser and for the same protocol on another parser), alone or after other packets, then followed by the template and the same data"},
-    "C08": {"oracle": "C08", "view": ["outcome", "pkts", "exports"], "families": fam_fixed_all, "mutate_per": {"quick": 1, "thorough": 2},
+    "C08": {"oracle": "C08", "view": ["outcome", "pkts", "exports"],
+            "families": lambda rng, tier: fam_fixed_all(rng, tier) + gen.fam_fixed_structs(rng, n(tier, 150, 1500)), "mutate_per": {"quick": 1, "thorough": 2},
             "rule": "V5/V7 packets, all counts, boundary values; re-export compared with the bytes each packet occupied"},
     "C09": {"mutate_per": {"quick": 1, "thorough": 2}, "oracle": "C09", "view": ["outcome", "pkts", "exports"], "families": fam_v9, "rule": STREAM_RULE + " (V9 only); re-export compared with the bytes each packet occupied"},
     "C10": {"mutate_per": {"quick": 1, "thorough": 2}, "oracle": "C10", "view": ["outcome", "pkts", "exports"], "families": fam_ipfix, "rule": STREAM_RULE + " (IPFIX only); re-export compared with the message bytes"},
